@@ -44,24 +44,63 @@ class PickleStub:
     del _p
 
     def __init__(self):
-        self.store = {}
+        self.store = {}  # selector -> list of dumped objects, in file order (a file may hold several pickles)
         self.dumps = []
         self.loads = 0
         self.load_exc = None
+        self.survive = None  # damage model: only the first `survive` objects of a file are intact; reading on raises load_exc (EOFError if unset)
         self.events = None
+
+    def _snap(self, obj):
+        try:
+            return snapshot_entries(obj)
+        except (TypeError, AttributeError):
+            import copy
+
+            return copy.copy(obj)  # a single entry or another picklable object
 
     def dump(self, obj, fp, protocol=None, **kw):
         fp.write(b"PICKLE")
-        self.store[fp.selector] = snapshot_entries(obj)
+        if not getattr(fp, "_pk_writing", False):
+            fp._pk_writing = True
+            self.store[fp.selector] = []  # a file opened for writing starts empty
+        self.store[fp.selector].append(self._snap(obj))
         self.dumps.append(fp.selector)
         if self.events is not None:
             self.events.append("dump")
 
     def load(self, fp):
         self.loads += 1
+        objs = self.store.get(fp.selector, [])
+        pos = getattr(fp, "_pk_pos", 0)
+        limit = len(objs) if self.survive is None else min(self.survive, len(objs))
+        if self.load_exc is not None and self.survive is None:
+            raise self.load_exc  # the whole file is damaged
+        if pos < limit:
+            fp._pk_pos = pos + 1
+            return self._snap(objs[pos])
         if self.load_exc is not None:
             raise self.load_exc
-        return snapshot_entries(self.store[fp.selector])
+        raise EOFError("Ran out of input")
+
+    # the object-style API of the pickle module, same semantics
+    def Pickler(self, fp, protocol=None, **kw):
+        stub = self
+
+        class _P:
+            def dump(self, obj):
+                stub.dump(obj, fp)
+
+        return _P()
+
+    def Unpickler(self, fp, **kw):
+        stub = self
+
+        class _U:
+            def load(self):
+                return stub.load(fp)
+
+        return _U()
 
 
 class Clock:
